@@ -249,4 +249,95 @@ theorem ref_replaceMatch {b : Bag} (h : Good b) : Refines b .replaceMatch := by
     simp only [ha', Bool.not_false, if_true, Prod.mk.injEq, Option.some.injEq] at e ⊢
     exact ⟨e.1, e.2, h⟩
 
+/-! ### `Mask`, `MaskOccurences` / `MaskUnique` -/
+
+/-- the lookup of the reference sequence through the name index = the first row of that name -/
+theorem getByName_seq {b : Bag} (h : Good b) (n : String) :
+    (getByName b n).map (·.seq) = ((pairs b).find? fun p => p.1 == n).map Prod.snd := by
+  rw [getByName_eq_find h, pairs, List.find?_map]
+  have e : ((fun p : String × Seq => p.1 == n) ∘ fun r : Row => (r.name, r.seq)) = fun r => r.name == n := rfl
+  rw [e]
+  cases b.rows.find? (fun r => r.name == n) <;> rfl
+
+theorem abs_withSeqs (b : Bag) (ps : List (String × Seq)) (hn : ps.map Prod.fst = b.rows.map (·.name)) :
+    abs { b with rows := withSeqs b.rows ps } = { abs b with rows := ps } := by
+  have := pairs_withSeqs b.rows ps hn
+  simp only [abs, pairs] at this ⊢
+  rw [this]
+
+theorem ref_mask {b : Bag} (h : Good b) (refseq : String) (start len : Int) (mr : MaskRep) (nogap noref : Bool) :
+    Refines b (.mask refseq start len mr nogap noref) := by
+  intro s' st e
+  simp only [Spec.stepOp, Model.stepOp, abs_isAlign, abs_rows, abs_alphabet] at e ⊢
+  by_cases ha : b.isAlign = true
+  · simp only [ha, Bool.not_true, Bool.false_eq_true, if_false, h.rect.abs_length ha] at e ⊢
+    have hm : maskWithRef (pairs b) b.length b.alphabet refseq start len mr nogap noref
+        ((getByName b refseq).map (·.seq)) = mask (pairs b) b.length b.alphabet refseq start len mr nogap noref := by
+      rw [getByName_seq h]; rfl
+    cases hr : mask (pairs b) b.length b.alphabet refseq start len mr nogap noref with
+    | none =>
+      have hv : maskBag refseq start len mr nogap noref b = some (b, true) := by
+        unfold maskBag; rw [hm, hr]
+      simp only [hr, Prod.mk.injEq, Option.some.injEq] at e
+      simp only [hv]
+      exact ⟨e.1, by simpa using e.2, h⟩
+    | some ps =>
+      have hshort : ¬ (decide (start < min (start + len) b.length) &&
+          b.rows.any fun r => decide ((r.seq.length : Int) < min (start + len) b.length)) = true := by
+        simp only [Bool.and_eq_true, List.any_eq_true, decide_eq_true_eq, not_and, not_exists]
+        intro _ r hr'
+        have := h.rect.rows_len ha r hr'
+        omega
+      have hv : maskBag refseq start len mr nogap noref b = some ({ b with rows := withSeqs b.rows ps }, false) := by
+        unfold maskBag; rw [hm, hr]; simp only []; rw [if_neg hshort]
+      obtain ⟨hn, _⟩ := maskWithRef_names_lens (hm.trans hr)
+      simp only [hr, Prod.mk.injEq, Option.some.injEq] at e
+      simp only [hv]
+      refine ⟨?_, by simpa using e.2, (sameShape_maskBag hv).good h⟩
+      rw [abs_withSeqs b ps (hn.trans (pairs_names b)), ← e.1]
+      simp [abs, ha]
+  · have ha' : b.isAlign = false := by simpa using ha
+    simp only [ha', Bool.not_false, if_true, Prod.mk.injEq, Option.some.injEq] at e ⊢
+    exact ⟨e.1, e.2, h⟩
+
+theorem ref_maskOcc {b : Bag} (h : Good b) (refseq : String) (maxOcc : Int) (mr : MaskRep) :
+    Refines b (.maskOcc refseq maxOcc mr) := by
+  intro s' st e
+  simp only [Spec.stepOp, Model.stepOp, abs_isAlign, abs_rows, abs_alphabet] at e ⊢
+  by_cases ha : b.isAlign = true
+  · simp only [ha, Bool.not_true, Bool.false_eq_true, if_false, h.rect.abs_length ha] at e ⊢
+    have hm : maskOccWithRef (pairs b) b.length b.alphabet refseq maxOcc mr
+        ((getByName b refseq).map (·.seq)) = maskOccurences (pairs b) b.length b.alphabet refseq maxOcc mr := by
+      rw [getByName_seq h]; rfl
+    cases hr : maskOccurences (pairs b) b.length b.alphabet refseq maxOcc mr with
+    | none =>
+      have hv : maskOccBag refseq maxOcc mr b = some (b, true) := by
+        unfold maskOccBag; rw [hm, hr]
+      simp only [hr, Prod.mk.injEq, Option.some.injEq] at e
+      simp only [hv]
+      exact ⟨e.1, by simpa using e.2, h⟩
+    | some ps =>
+      have hshort : ¬ (b.rows.any fun r => decide (r.seq.length < b.length.toNat)) = true := by
+        simp only [List.any_eq_true, decide_eq_true_eq, not_exists, not_and, Nat.not_lt]
+        intro r hr'
+        have := h.rect.rows_len ha r hr'
+        omega
+      obtain ⟨hn, _⟩ := maskOccWithRef_names_len (hm.trans hr)
+      have hlen : ps.length = b.rows.length := length_of_names (hn.trans (pairs_names b))
+      have hex : keepTails b.length.toNat b.rows ps = ps := by
+        apply keepTails_exact _ _ _ hlen
+        intro r hr'
+        have := h.rect.rows_len ha r hr'
+        omega
+      have hv : maskOccBag refseq maxOcc mr b = some ({ b with rows := withSeqs b.rows ps }, false) := by
+        unfold maskOccBag; rw [hm, hr]; simp only []; rw [if_neg hshort, hex]
+      simp only [hr, Prod.mk.injEq, Option.some.injEq] at e
+      simp only [hv]
+      refine ⟨?_, by simpa using e.2, (sameShape_maskOccBag hv).good h⟩
+      rw [abs_withSeqs b ps (hn.trans (pairs_names b)), ← e.1]
+      simp [abs, ha]
+  · have ha' : b.isAlign = false := by simpa using ha
+    simp only [ha', Bool.not_false, if_true, Prod.mk.injEq, Option.some.injEq] at e ⊢
+    exact ⟨e.1, e.2, h⟩
+
 end Gv.Proofs.BagAbs
